@@ -1,7 +1,234 @@
+(** C14 — tables stay rectangular; merges stay consistent.
+    Statements over model/Table.v (tied to python-pptx by the correspondence of
+    checks/c14.py); vocabulary (region, Inv_at, Inv, overlaps, texts, ...) is defined in
+    proofs/Table_proofs.v.  Each theorem is closed by the lemma of the same content. *)
 From V.lib Require Import Prelude.
 From V.model Require Import Table.
 From V.proofs Require Import Table_proofs.
 
-Example C14_smoke : exists t, new_tbl 2 3 100 101 = Ok t.
-Proof. exact new_tbl_smoke. Qed.
-Print Assumptions C14_smoke.
+(* ------------------------------------------------------------------ creation *)
+(** A table created with positive counts has [rows] rows of exactly [cols] plain cells
+    with one empty paragraph each; the column widths sum to the requested width and the
+    row heights to the requested height, whatever the remainders; the frame has the
+    requested size; the invariant holds with no merged region. *)
+Theorem C14_new : forall rows cols w h t,
+  new_tbl rows cols w h = Ok t ->
+  0 < rows /\ 0 < cols /\
+  length (grid t) = rows /\ rect_grid cols (grid t) /\
+  length (widths t) = cols /\ length (heights t) = rows /\
+  sumZ (widths t) = w /\ sumZ (heights t) = h /\ cx t = w /\ cy t = h /\
+  (forall r c cl, get (grid t) r c = Some cl -> cl = new_cell) /\
+  Inv_at t [].
+Proof. exact new_tbl_spec. Qed.
+Print Assumptions C14_new.
+
+(** ... and such a table is produced for every positive count and every non-negative
+    size a coordinate can hold. *)
+Theorem C14_new_accepts : forall rows cols w h,
+  0 < rows -> 0 < cols -> (0 <= w <= 27273042316900)%Z -> (0 <= h <= 27273042316900)%Z ->
+  exists t, new_tbl rows cols w h = Ok t.
+Proof. exact new_tbl_accepts. Qed.
+Print Assumptions C14_new_accepts.
+
+Example C14_new_nonvacuous :
+  match new_tbl 3 4 101 200 with
+  | Ok t => widths t = [25; 25; 25; 26]%Z /\ heights t = [66; 66; 68]%Z /\ cx t = 101%Z /\ cy t = 200%Z
+  | Err _ => False
+  end.
+Proof. vm_compute. repeat split. Qed.
+
+(* ------------------------------------------------------------------ invariant *)
+(** Inv_at t regs: every row has as many cells as there are grid columns; as many row
+    heights as rows; every cell has a paragraph; [regs] are pairwise disjoint blocks of
+    at least two cells inside the grid; and the four merge attributes of EVERY cell are
+    the ones determined by [regs]: in a region the left column carries gridSpan = width,
+    the top row rowSpan = height, every other column hMerge, every other row vMerge;
+    outside every region the cell is plain.  Preserved by every operation ... *)
+Theorem C14_inv_step : forall t o, Inv t -> Inv (fst (step t o)).
+Proof. exact step_Inv. Qed.
+Print Assumptions C14_inv_step.
+
+(** ... hence along every history from a new table, where the row and column counts
+    never change either. *)
+Theorem C14_inv : forall rows cols w h t ops,
+  new_tbl rows cols w h = Ok t ->
+  let t' := run_ops t ops in
+  Inv t' /\ length (grid t') = rows /\ Forall (fun row => length row = cols) (grid t') /\
+  length (widths t') = cols /\ length (heights t') = rows.
+Proof. exact run_ops_rectangular. Qed.
+Print Assumptions C14_inv.
+
+(** What the public observers report under the invariant: the top-left cell of a region
+    is a merge origin whose span_height / span_width are the region's size, every other
+    cell of the region is spanned, a cell outside every region is neither. *)
+Theorem C14_inv_observers : forall t regs r c cl,
+  Inv_at t regs -> get (grid t) r c = Some cl ->
+  match find (fun rg => in_reg rg r c) regs with
+  | Some rg =>
+      if (r =? rtop rg) && (c =? rleft rg)
+      then is_merge_origin cl = true /\ is_spanned cl = false /\ rowSpan cl = rh rg /\ gridSpan cl = rw rg
+      else is_merge_origin cl = false /\ is_spanned cl = true
+  | None => is_merge_origin cl = false /\ is_spanned cl = false /\ rowSpan cl = 1 /\ gridSpan cl = 1
+  end.
+Proof. exact Inv_observers. Qed.
+Print Assumptions C14_inv_observers.
+
+(* ------------------------------------------------------------------ refusals *)
+(** A merge whose two corner cells exist is refused exactly when its block shares a cell
+    with an existing merged region: then ValueError and the state is unchanged; otherwise
+    it succeeds and the block becomes a region (add_reg keeps the list for a one-cell
+    block). *)
+Theorem C14_refuse : forall t regs r1 c1 r2 c2 a b,
+  Inv_at t regs -> get (grid t) r1 c1 = Some a -> get (grid t) r2 c2 = Some b ->
+  let rg := merge_rect r1 c1 r2 c2 in
+  (overlaps regs rg /\ step t (Merge r1 c1 r2 c2) = (t, Err ValueErr)) \/
+  (~ overlaps regs rg /\
+   exists g', merge (grid t) r1 c1 r2 c2 = Ok g' /\
+              step t (Merge r1 c1 r2 c2) = (with_grid t g', Ok tt) /\
+              Inv_at (with_grid t g') (add_reg rg regs)).
+Proof. exact merge_behaviour. Qed.
+Print Assumptions C14_refuse.
+
+(** A merge reaching into another table is always refused and changes nothing. *)
+Theorem C14_refuse_foreign : forall t r c cl,
+  get (grid t) r c = Some cl -> step t (MergeForeign r c) = (t, Err ValueErr).
+Proof. exact merge_foreign_refused. Qed.
+Print Assumptions C14_refuse_foreign.
+
+(** Whatever merge, split or text assignment raises, the state is unchanged. *)
+Theorem C14_refuse_unchanged : forall t o e,
+  is_resize o = false -> snd (step t o) = Err e -> fst (step t o) = t.
+Proof. exact step_err_unchanged. Qed.
+Print Assumptions C14_refuse_unchanged.
+
+Theorem C14_refuse_index : forall t r1 c1 r2 c2,
+  get (grid t) r1 c1 = None \/ get (grid t) r2 c2 = None ->
+  step t (Merge r1 c1 r2 c2) = (t, Err IndexErr).
+Proof. exact merge_index_error. Qed.
+Print Assumptions C14_refuse_index.
+
+(* ------------------------------------------------------------------ split *)
+(** Split of the origin of a region resets the four attributes of exactly the cells of
+    that region (paragraphs kept), changes nothing else (sizes included: with_grid), and
+    the region leaves the list; split of any other cell is refused with ValueError and
+    changes nothing. *)
+Theorem C14_split : forall t regs r c cl,
+  Inv_at t regs -> get (grid t) r c = Some cl ->
+  (exists rg, In rg regs /\ rtop rg = r /\ rleft rg = c /\
+     let g' := map_grid (fun r' c' cl' => if in_reg rg r' c' then plain_cell cl' else cl') (grid t) in
+     step t (Split r c) = (with_grid t g', Ok tt) /\
+     Inv_at (with_grid t g') (remove_reg rg regs) /\
+     (forall r' c', get g' r' c' =
+        if in_reg rg r' c' then option_map plain_cell (get (grid t) r' c') else get (grid t) r' c'))
+  \/
+  ((forall rg, In rg regs -> ~ (rtop rg = r /\ rleft rg = c)) /\
+   step t (Split r c) = (t, Err ValueErr)).
+Proof. exact split_behaviour. Qed.
+Print Assumptions C14_split.
+
+(* ------------------------------------------------------------------ text *)
+(** After an accepted merge the origin holds exactly the non-empty paragraphs of the whole
+    block in reading order; every other cell of the block is left with one empty
+    paragraph (so nothing is duplicated and the block as a whole reads the same); cells
+    outside the block are untouched. *)
+Theorem C14_text : forall n g r1 c1 r2 c2 a b g',
+  rect_grid n g -> get g r1 c1 = Some a -> get g r2 c2 = Some b ->
+  merge g r1 c1 r2 c2 = Ok g' ->
+  let rg := merge_rect r1 c1 r2 c2 in
+  let block g := range_cells g (rtop rg) (rleft rg) (rh rg) (rw rg) in
+  (exists o', get g' (rtop rg) (rleft rg) = Some o' /\
+              filter nonempty_str (paras o') = texts (block g)) /\
+  (forall r c cl', in_reg rg r c = true -> (r, c) <> (rtop rg, rleft rg) ->
+                   get g' r c = Some cl' -> paras cl' = [[]]) /\
+  (forall r c, in_reg rg r c = false -> get g' r c = get g r c) /\
+  texts (block g') = texts (block g).
+Proof. exact merge_text. Qed.
+Print Assumptions C14_text.
+
+(* ------------------------------------------------------------------ frame size *)
+(** An accepted row-height (column-width) assignment leaves the frame height (width) equal
+    to the sum of the row heights (column widths) and changes nothing else. *)
+Theorem C14_frame_size : forall t i h t',
+  step t (SetRowH i h) = (t', Ok tt) ->
+  cy t' = sumZ (heights t') /\ heights t' = set_nth i h (heights t) /\
+  widths t' = widths t /\ cx t' = cx t /\ grid t' = grid t.
+Proof. exact set_row_h_ok. Qed.
+Print Assumptions C14_frame_size.
+
+Theorem C14_frame_size_col : forall t j w t',
+  step t (SetColW j w) = (t', Ok tt) ->
+  cx t' = sumZ (widths t') /\ widths t' = set_nth j w (widths t) /\
+  heights t' = heights t /\ cy t' = cy t /\ grid t' = grid t.
+Proof. exact set_col_w_ok. Qed.
+Print Assumptions C14_frame_size_col.
+
+(** frame = sums is kept by every operation as long as no resize is rejected. *)
+Theorem C14_frame_size_history : forall t o,
+  frame_ok t -> (is_resize o = true -> snd (step t o) = Ok tt) -> frame_ok (fst (step t o)).
+Proof. exact step_frame_ok. Qed.
+Print Assumptions C14_frame_size_history.
+
+(** The unconditional reading (frame = sum after ANY height assignment) is refuted by
+    the faithful model: when the new total is not a valid frame extent the setter raises
+    ValueError after the row height has already been written. *)
+Theorem C14_frame_size_refuted :
+  exists t i h t',
+    new_tbl 1 1 100 100 = Ok t /\ frame_ok t /\
+    step t (SetRowH i h) = (t', Err ValueErr) /\ cy t' <> sumZ (heights t').
+Proof. exact frame_size_refuted. Qed.
+Print Assumptions C14_frame_size_refuted.
+
+(* ------------------------------------------------------------------ non-vacuity *)
+(** One concrete history exercising the hypotheses of the theorems above: text in three
+    cells, a merge given bottom-right corner first, then a refused overlapping merge, a
+    refused foreign merge, a refused split of a spanned cell, the split of the origin, and
+    a row-height change. *)
+Example C14_history_nonvacuous :
+  match new_tbl 3 3 901 601 with
+  | Ok t =>
+      let t1 := run_ops t [SetText 0 1 [97]%N; SetText 1 0 [98; 10; 99]%N; SetText 2 2 [100]%N;
+                           Merge 1 1 0 0] in
+      option_map (fun c => (cell_flags c, paras c)) (get (grid t1) 0 0)
+        = Some ((2, 2, false, false), [[97]; [98]; [99]]%N) /\
+      option_map cell_flags (get (grid t1) 0 1) = Some (1, 2, true, false) /\
+      option_map cell_flags (get (grid t1) 1 0) = Some (2, 1, false, true) /\
+      option_map (fun c => (cell_flags c, paras c)) (get (grid t1) 1 1)
+        = Some ((1, 1, true, true), [[]]) /\
+      option_map (fun c => (cell_flags c, paras c)) (get (grid t1) 2 2)
+        = Some ((1, 1, false, false), [[100]]%N) /\
+      step t1 (Merge 1 1 2 2) = (t1, Err ValueErr) /\
+      step t1 (MergeForeign 2 2) = (t1, Err ValueErr) /\
+      step t1 (Split 1 1) = (t1, Err ValueErr) /\
+      snd (step t1 (Split 0 0)) = Ok tt /\
+      option_map cell_flags (get (grid (fst (step t1 (Split 0 0)))) 1 1) = Some (1, 1, false, false) /\
+      snd (step t1 (SetRowH 0 1000)) = Ok tt /\
+      cy (fst (step t1 (SetRowH 0 1000))) = 1401%Z
+  | Err _ => False
+  end.
+Proof. vm_compute. repeat split. Qed.
+
+(** the hypotheses of C14_refuse / C14_split / C14_text are met by a real state *)
+Example C14_hypotheses_nonvacuous :
+  exists t regs a b, Inv_at t regs /\ regs <> [] /\
+    get (grid t) 0 0 = Some a /\ get (grid t) 1 1 = Some b /\ is_merge_origin a = true /\
+    rect_grid 3 (grid t).
+Proof.
+  destruct (new_tbl 3 3 901 601) as [t|] eqn:E; [|vm_compute in E; discriminate].
+  destruct (C14_new _ _ _ _ _ E) as (_ & _ & _ & HR & HW & _ & _ & _ & _ & _ & _ & HI).
+  pose proof (C14_refuse t [] 1 1 0 0) as H.
+  assert (exists a, get (grid t) 1 1 = Some a) as [a Ha].
+  { vm_compute in E. injection E as <-. vm_compute. eauto. }
+  assert (exists b, get (grid t) 0 0 = Some b) as [b Hb].
+  { vm_compute in E. injection E as <-. vm_compute. eauto. }
+  specialize (H a b HI Ha Hb). cbv zeta in H.
+  destruct H as [[(x & _ & _ & [] & _) _]|(_ & g' & Hm & _ & HI')].
+  exists (with_grid t g'), (add_reg (merge_rect 1 1 0 0) []).
+  assert (Hg' : g' = match merge (grid t) 1 1 0 0 with Ok g => g | Err _ => [] end) by (rewrite Hm; reflexivity).
+  vm_compute in E. injection E as <-.
+  vm_compute in Hg'. subst g'.
+  eexists. eexists. split; [exact HI'|].
+  split; [vm_compute; discriminate|].
+  split; [vm_compute; reflexivity|]. split; [vm_compute; reflexivity|].
+  split; [vm_compute; reflexivity|].
+  vm_compute. repeat constructor.
+Qed.
